@@ -2934,7 +2934,8 @@ func getVarDependencies(nod *node) (deps []*node) {
 // setFnext sets the cond fnext field to next, propagates it for parenthesis blocks
 // and sets the action to branch.
 func setFNext(cond, next *node) {
-	if cond.action == aNop {
+	if cond.action == aNop || cond.action == aGetSym && !cond.rval.IsValid() {
+		// A variable, possibly of another package.
 		cond.action = aBranch
 		cond.gen = branch
 		cond.fnext = next
